@@ -297,6 +297,22 @@ class _Unroll(ast.NodeTransformer):
         return out
 
 
+class _QuantifierOverConstants(ast.NodeTransformer):
+    """any(E(v) for v in (c1, c2)) -> E(c1) or E(c2) ; all(..) -> and   (constant tuple / list of <= 6 literals, no filter)"""
+
+    def visit_Call(self, node):  # noqa: N802
+        self.generic_visit(node)
+        if isinstance(node.func, ast.Name) and node.func.id in ('any', 'all') and len(node.args) == 1 and not node.keywords \
+                and isinstance(node.args[0], (ast.GeneratorExp, ast.ListComp)) and len(node.args[0].generators) == 1:
+            gen = node.args[0].generators[0]
+            if isinstance(gen.target, ast.Name) and not gen.ifs and isinstance(gen.iter, (ast.Tuple, ast.List)) and \
+                    1 < len(gen.iter.elts) <= 6 and all(isinstance(x, ast.Constant) for x in gen.iter.elts):
+                vals = [_Subst({gen.target.id: c}).visit(clone(node.args[0].elt)) for c in gen.iter.elts]
+                op = ast.Or() if node.func.id == 'any' else ast.And()
+                return ast.copy_location(ast.BoolOp(op=op, values=vals), node)
+        return node
+
+
 class _LiteralAttr(ast.NodeTransformer):
     """getattr(x, 'name') -> x.name ; setattr(x, 'name', v) as a statement -> x.name = v"""
 
@@ -338,6 +354,7 @@ def unroll_constant_loops(modules: dict, log: list):
         consts = {k: v for k, v in consts.items() if seen.get(k) == 1}
         for node in ast.walk(mod.tree):
             if isinstance(node, FUNC):
+                _QuantifierOverConstants().visit(node)
                 before = len(log)
                 new_body = []
                 for st in node.body:
@@ -519,8 +536,12 @@ def _is_static(fn) -> bool:
     return len(fn.decorator_list) == 1 and isinstance(fn.decorator_list[0], ast.Name) and fn.decorator_list[0].id == 'staticmethod'
 
 
+def _is_classmethod(fn) -> bool:
+    return len(fn.decorator_list) == 1 and isinstance(fn.decorator_list[0], ast.Name) and fn.decorator_list[0].id == 'classmethod'
+
+
 def _inlinable(fn) -> bool:
-    if isinstance(fn, ast.AsyncFunctionDef) or (fn.decorator_list and not _is_static(fn)):
+    if isinstance(fn, ast.AsyncFunctionDef) or (fn.decorator_list and not (_is_static(fn) or _is_classmethod(fn))):
         return False
     a = fn.args
     if a.vararg or a.kwarg or a.posonlyargs:
@@ -573,10 +594,8 @@ def _bind(fn, call, is_method, caller_names, log_name):
     mapping = {}
     prefix = []
     taken = set(caller_names)
-    if is_method:
-        mapping[params[0]] = 'self' if params[0] != 'self' else None
-        if mapping[params[0]] is None:
-            del mapping[params[0]]
+    if is_method and params[0] not in ('self', 'cls'):
+        mapping[params[0]] = 'self'
     # helper locals that clash with caller names get a suffix
     for name in sorted(assigned - set(plist)):
         if name in taken:
@@ -791,7 +810,7 @@ def _inline_expression(fn, expr, is_target, is_method, callers, counter):
                     counter['bailed'] += 1
                     return node
             mapping = dict(actual)
-            if is_method and params[0] != 'self':
+            if is_method and params[0] not in ('self', 'cls'):
                 mapping[params[0]] = 'self'
             counter['inlined'] += 1
             return ast.copy_location(_Subst(mapping).visit(clone(expr)), node)
@@ -830,10 +849,12 @@ def inline_new_helpers(repo, inv: dict, log: list) -> bool:
                     callers += [f.node for f in repo.funcs.values() if f.cls is not None and f.cls.qual in family
                                 and f.node not in callers]
 
-                    def is_target(e, name=fn.name, static=not is_method, cname=container.name):
-                        return isinstance(e.func, ast.Attribute) and e.func.attr == name and \
-                            isinstance(e.func.value, ast.Name) and \
-                            (e.func.value.id == 'self' or (static and e.func.value.id in (cname, 'cls')))
+                    def is_target(e, name=fn.name, static=not is_method, cname=container.name, clsm=_is_classmethod(fn)):
+                        if not (isinstance(e.func, ast.Attribute) and e.func.attr == name and isinstance(e.func.value, ast.Name)):
+                            return False
+                        if clsm:   # a classmethod helper: only calls through `cls` (its cls is then the caller's cls)
+                            return e.func.value.id == 'cls'
+                        return e.func.value.id == 'self' or (static and e.func.value.id in (cname, 'cls'))
                 else:
                     callers = [f.node for f in repo.funcs.values() if f.module is mod]
 
